@@ -280,6 +280,29 @@ func init() {
 		"verifIsConcrete": func(m *Machine, _ *frame, _ token.Pos, _ *ssa.Function, a []Value) Value {
 			return m.F.False()
 		},
+		"verifB2I": func(m *Machine, _ *frame, _ token.Pos, _ *ssa.Function, a []Value) Value {
+			return m.F.Ite(a[0].(*sym.Term), m.i64(1), m.i64(0))
+		},
+		"verifAll": func(m *Machine, _ *frame, _ token.Pos, _ *ssa.Function, a []Value) Value {
+			r := m.F.True()
+			for _, c := range a[0].(Slice) {
+				r = m.F.And(r, c.(*sym.Term))
+			}
+			return r
+		},
+		"verifAny": func(m *Machine, _ *frame, _ token.Pos, _ *ssa.Function, a []Value) Value {
+			r := m.F.False()
+			for _, c := range a[0].(Slice) {
+				r = m.F.Or(r, c.(*sym.Term))
+			}
+			return r
+		},
+		"verifImplies": func(m *Machine, _ *frame, _ token.Pos, _ *ssa.Function, a []Value) Value {
+			return m.F.Or(m.F.Not(a[0].(*sym.Term)), a[1].(*sym.Term))
+		},
+		"verifIte64": func(m *Machine, _ *frame, _ token.Pos, _ *ssa.Function, a []Value) Value {
+			return m.F.Ite(a[0].(*sym.Term), a[1].(*sym.Term), a[2].(*sym.Term))
+		},
 		"verifYield": func(m *Machine, _ *frame, _ token.Pos, _ *ssa.Function, a []Value) Value {
 			m.schedPoint("yield")
 			return nil
